@@ -6,9 +6,17 @@ package recondrv
 
 import (
 	"context"
+	"errors"
 	"fmt"
+	"io"
 	"math/rand"
+	"sort"
+	"strings"
 	"sync/atomic"
+
+	"github.com/openconfig/gribigo/server"
+	"google.golang.org/grpc"
+	"google.golang.org/protobuf/proto"
 
 	"github.com/openconfig/gribigo/rib"
 	"github.com/openconfig/gribigo/rib/reconciler"
@@ -17,6 +25,7 @@ import (
 
 	"verif/harness/abs"
 	"verif/harness/ribdrv"
+	"verif/harness/srvdrv"
 )
 
 // Input is one step of a reconcile case.
@@ -208,6 +217,7 @@ func Run(rn *ribdrv.Runner, ins []Input, base uint64) error {
 	_ = byID
 	ev["ops"] = map[string]any{"add": add, "rep": rep, "del": del}
 	ev["ids"] = sorted
+	ev["remote"] = remotePlan(rn.RIB(), intended, ops)
 	rn.Sink.Emit(ev)
 	// documented order
 	for _, set := range [][]*spb.AFTOperation{
@@ -378,4 +388,95 @@ func Random(rng *rand.Rand) []Input {
 	ins = append(ins, Input{Ph: "freeze", Scratch: rng.Intn(3) == 0})
 	gen("I", rng.Intn(12))
 	return ins
+}
+
+// ---------------------------------------------------------------------------
+// The same reconciliation with the target reached through reconciler.RemoteRIB (client.Get over a stub that
+// calls a real server holding the target RIB, rib.FromGetResponses): its plan must be the local one.
+
+type getIter struct {
+	grpc.ClientStream
+	rs []*spb.GetResponse
+}
+
+func (g *getIter) Recv() (*spb.GetResponse, error) {
+	if len(g.rs) == 0 {
+		return nil, io.EOF
+	}
+	r := g.rs[0]
+	g.rs = g.rs[1:]
+	return r, nil
+}
+
+type srvStub struct{ srv *server.FakeServer }
+
+func (s *srvStub) Modify(context.Context, ...grpc.CallOption) (spb.GRIBI_ModifyClient, error) {
+	return nil, errors.New("unused")
+}
+func (s *srvStub) Flush(context.Context, *spb.FlushRequest, ...grpc.CallOption) (*spb.FlushResponse, error) {
+	return nil, errors.New("unused")
+}
+func (s *srvStub) Get(_ context.Context, req *spb.GetRequest, _ ...grpc.CallOption) (spb.GRIBI_GetClient, error) {
+	gs := srvdrv.NewGetStream(-1)
+	if err := s.srv.Get(req, gs); err != nil {
+		return nil, err
+	}
+	return &getIter{rs: gs.Got()}, nil
+}
+
+func planKey(o *reconciler.ReconcileOps) ([]string, error) {
+	out := []string{}
+	for cat, set := range map[string]*reconciler.Ops{"add": o.Add, "rep": o.Replace, "del": o.Delete} {
+		for tab, ps := range map[string][]*spb.AFTOperation{"nh": set.NH, "nhg": set.NHG, "top": set.TopLevel} {
+			for _, p := range ps {
+				q := proto.Clone(p).(*spb.AFTOperation)
+				q.Id = 0
+				if g := q.GetNextHopGroup().GetNextHopGroup(); g != nil {
+					// the order of a group's next-hop list is the order of a Go map: not part of the plan
+					sort.Slice(g.NextHop, func(i, j int) bool { return g.NextHop[i].GetIndex() < g.NextHop[j].GetIndex() })
+				}
+				b, err := proto.MarshalOptions{Deterministic: true}.Marshal(q)
+				if err != nil {
+					return nil, err
+				}
+				out = append(out, cat+"/"+tab+"/"+string(b))
+			}
+		}
+	}
+	sort.Strings(out)
+	return out, nil
+}
+
+func remotePlan(target, intended *rib.RIB, local *reconciler.ReconcileOps) string {
+	fs, err := server.NewFake()
+	if err != nil {
+		return "error: " + err.Error()
+	}
+	fs.InjectRIB(target)
+	rr, err := reconciler.NewRemoteRIBWithStub(ribdrv.DefaultNI, &srvStub{srv: fs})
+	if err != nil {
+		return "error: " + err.Error()
+	}
+	id := &atomic.Uint64{}
+	ops, err := reconciler.New(reconciler.NewLocalRIB(intended), rr).Reconcile(context.Background(), id)
+	if err != nil {
+		return "error: " + err.Error()
+	}
+	a, err := planKey(local)
+	if err != nil {
+		return "error: " + err.Error()
+	}
+	b, err := planKey(ops)
+	if err != nil {
+		return "error: " + err.Error()
+	}
+	if len(a) != len(b) {
+		return fmt.Sprintf("differs: %d operations through the remote target, %d through the local one", len(b), len(a))
+	}
+	for i := range a {
+		if a[i] != b[i] {
+			return "differs: " + strings.SplitN(b[i], "/", 3)[0] + "/" + strings.SplitN(b[i], "/", 3)[1]
+		}
+	}
+	return "same"
 }
